@@ -58,6 +58,7 @@ func collectCmps(p *Prog) map[string][]cmpSite {
 				r = polyAtom(strings.ReplaceAll(types.ExprString(be.Y), " ", ""))
 			}
 			polyAbstract = true
+			polyAbsSeen = nil
 			la, oka := exprPoly(info, be.X, nil, nil, 0)
 			ra, okb := exprPoly(info, be.Y, nil, nil, 0)
 			polyAbstract = false
